@@ -45,6 +45,7 @@ def to_model(case, obs):
     groups = []          # number of model events per script command
     live = []            # (bid, ty, react, cond): only to decide whether a corruption event panics its reader
     nb = 0
+    pseudo = [1000]
     for c in executed(case, obs):
         n = c[0]
         k0 = len(evs)
@@ -72,6 +73,35 @@ def to_model(case, obs):
                     elif a[0] == "drop_barrier":
                         evs.append("DropBarrier %d" % a[1])
                         live = [x for x in live if x[0] != a[1]]
+        elif n == "tick":
+            # one poll of the host task = one tick: reads trigger inside the read, in program order
+            for a in c[2]:
+                if a[0] == "read":
+                    evs.append("TriggerNoop %d (2, %d)" % (c[1], a[1]))
+                    m = first_live_match(live, 2, a[1])
+                    if m is not None and m[2] != "noop":
+                        break               # the reader panics there
+                elif a[0] == "build":
+                    evs.append("Build %s (ccond %d %s)" % (REACT[a[2]], a[1], coq_pred(a[3])))
+                    live.append((nb, a[1], a[2], a[3]))
+                    nb += 1
+                elif a[0] == "drop_barrier":
+                    evs.append("DropBarrier %d" % a[1])
+                    live = [x for x in live if x[0] != a[1]]
+        elif n == "guarded":
+            # destructors that trigger are code of their own: they run although the task's main
+            # code has panicked (a fresh source number each time, never reported on)
+            busy = obs["obs"][len(groups)][0] == "busy"
+            pseudo[0] += 2
+            _, src, ty, val, sync, guards, catch = c
+            if catch:
+                if not busy:
+                    evs.append("TriggerNoop %d (%d, %d)" % (pseudo[0], ty, val))
+            else:
+                evs.append("%s %d (%d, %d)" % ("TriggerNoop" if sync else "Trigger", src, ty, val))
+            if not busy:
+                for (gty, gv) in guards:
+                    evs.append("TriggerNoop %d (%d, %d)" % (pseudo[0] + 1, gty, gv))
         elif n == "wait":
             evs.append("Wait %d" % c[1])
         elif n == "drop_handle":
@@ -98,8 +128,12 @@ def compare(case, obs, model, probes):
         return "model produced %d outputs for %d commands (%d events)" % (len(model), len(io), sum(probes))
     # one model output per command: the first event's observation, the last event's source states
     folded, k = [], 0
+    nsrc = case["cfg"]["nsrc"]
     for g in probes:
-        folded.append((model[k][0], model[k + g - 1][1]))
+        if g == 0:
+            folded.append((None, folded[-1][1] if folded else [0] * nsrc))
+        else:
+            folded.append((model[k][0], model[k + g - 1][1]))
         k += g
     model = folded
     started = [0] * case["cfg"]["nsrc"]
@@ -109,8 +143,13 @@ def compare(case, obs, model, probes):
         if n == "build":
             if [0, r] != list(mo):
                 return "%s: barrier number %s, model %s" % (where, r, mo)
-        elif n in ("trigger", "trigger_noop", "corrupt_read", "corrupt_then"):
+        elif n == "guarded" and c[6]:
+            if r == "sent":
+                started[c[1]] += 1
+        elif n in ("trigger", "trigger_noop", "corrupt_read", "corrupt_then", "tick", "guarded"):
             want = "sent" if mo == [1] else "busy"
+            if n == "tick" and not any(a[0] == "read" for a in c[2][:1]):
+                want = r            # the first event of the tick is not a trigger
             if r != want:
                 return "%s: source was %s for the implementation, %s for the model" % (where, r, want)
             if r == "sent":
@@ -144,7 +183,6 @@ def oracle(case, obs):
     io = obs["obs"]
     nsrc = case["cfg"]["nsrc"]
     live = []            # [bid, ty, react, cond, queue(list of (ty, n, src|None, call no))] creation order
-    nb = 0
     handles = {}         # hid -> (src, call no) or None
     state = ["run"] * nsrc      # run | susp | dead | gone
     parked = {}          # src -> call no of the trigger call it is parked in
@@ -163,53 +201,86 @@ def oracle(case, obs):
             rets[src] += 1
             del parked[src]
 
+    def fire(src, is_async, ty, val):
+        """one trigger call; src None = code that is not one of the observed sources (a destructor
+        running during an unwind, a block inside catch_unwind).  -> "ret" | "susp" | "dead" """
+        nonlocal callno
+        callno += 1
+        m = next((b for b in live if b[1] == ty and py_pred(b[3], val)), None)
+        if m is None:
+            return "ret"                     # returns at once, reported nowhere
+        if m[2] == "noop":
+            m[4].append((ty, val, None, callno))
+            return "ret"
+        if m[2] == "suspend" and is_async and src is not None:
+            m[4].append((ty, val, src, callno))
+            state[src] = "susp"
+            parked[src] = callno
+            return "susp"
+        return "dead"                        # Panic, or trigger_noop on a Suspend barrier
+
+    def host_actions(src, acts):
+        """code of `src` running within one tick; stops where a read panics"""
+        for a in acts:
+            if state[src] != "run":
+                return
+            if a[0] == "mark":
+                marks[src] += 1
+            elif a[0] == "read":
+                if fire(src, False, 2, a[1]) == "dead":      # the corruption event is triggered inside the read
+                    state[src] = "dead"
+            elif a[0] == "build":
+                live.append([len(built), a[1], a[2], a[3], []])
+                built.append(1)
+            elif a[0] == "drop_barrier":
+                b = next((x for x in live if x[0] == a[1]), None)
+                if b is not None:
+                    live.remove(b)
+                    for (_, _, s2, no) in b[4]:
+                        release(s2, no)
+
+    built = []
     for i, (c, (r, st)) in enumerate(zip(executed(case, obs), io)):
         n = c[0]
         where = "cmd %d %s" % (i, json.dumps(c))
-        after = []
         if n == "build":
-            live.append([nb, c[1], c[2], c[3], []])
-            nb += 1
-        elif n in ("trigger", "trigger_noop", "corrupt_read", "corrupt_then"):
+            live.append([len(built), c[1], c[2], c[3], []])
+            built.append(1)
+        elif n in ("trigger", "trigger_noop", "corrupt_read", "corrupt_then", "tick", "guarded"):
             src = c[1]
-            if n == "corrupt_then":
-                after = c[3]      # what the host code does behind the read, in the same tick
-            if n in ("corrupt_read", "corrupt_then"):
-                # the corruption event is triggered inside the read, synchronously
-                c = ["trigger_noop", c[1], 2, c[2]]
-                n = "trigger_noop"
             if r == "sent":
                 if state[src] != "run":
                     fail("%s: a %s source made a trigger call" % (where, state[src]))
                 calls[src] += 1
-                callno += 1
-                m = next((b for b in live if b[1] == c[2] and py_pred(b[3], c[3])), None)
-                if m is None:
-                    rets[src] += 1          # must return at once, reported nowhere
-                elif m[2] == "noop":
-                    m[4].append((c[2], c[3], None, callno))
-                    rets[src] += 1
-                elif m[2] == "suspend" and n == "trigger":
-                    m[4].append((c[2], c[3], src, callno))
-                    state[src] = "susp"
-                    parked[src] = callno
+                if n == "tick":
+                    host_actions(src, c[2])
+                    if state[src] == "run":
+                        rets[src] += 1
+                elif n == "corrupt_then":
+                    host_actions(src, [["read", c[2]]] + c[3])
+                    if state[src] == "run":
+                        rets[src] += 1
+                elif n == "guarded":
+                    _, _, ty, val, sync, guards, catch = c
+                    if catch:
+                        fire(None, False, ty, val)           # a panic is caught: the source goes on
+                        rets[src] += 1
+                    else:
+                        out1 = fire(src, not sync, ty, val)
+                        if out1 == "ret":
+                            rets[src] += 1
+                        elif out1 == "dead":
+                            state[src] = "dead"
+                    # the guards are dropped (normally or by the unwind): each destructor triggers
+                    for (gty, gv) in guards:
+                        fire(None, False, gty, gv)
                 else:
-                    state[src] = "dead"     # Panic, or trigger_noop on a Suspend barrier
-                if state[src] == "run":
-                    # code behind the read runs only if the read returned; barriers it creates or
-                    # drops did not exist / were still alive when the trigger fired
-                    for a in after:
-                        if a[0] == "mark":
-                            marks[src] += 1
-                        elif a[0] == "build":
-                            live.append([nb, a[1], a[2], a[3], []])
-                            nb += 1
-                        elif a[0] == "drop_barrier":
-                            b = next((x for x in live if x[0] == a[1]), None)
-                            if b is not None:
-                                live.remove(b)
-                                for (_, _, s2, no) in b[4]:
-                                    release(s2, no)
+                    ty, val = (2, c[2]) if n == "corrupt_read" else (c[2], c[3])
+                    out1 = fire(src, n == "trigger", ty, val)
+                    if out1 == "ret":
+                        rets[src] += 1
+                    elif out1 == "dead":
+                        state[src] = "dead"
             else:
                 if state[src] == "run":
                     fail("%s: source %d should be able to trigger but is %s" % (where, src, r))
@@ -265,7 +336,7 @@ def oracle(case, obs):
 def features(case, obs):
     f = set()
     for c, (r, st) in zip(case["script"], obs.get("obs", [])):
-        if c[0] == "corrupt_then":
+        if c[0] in ("corrupt_then", "tick", "guarded"):
             f.add("drop_barrier")
         if c[0] == "wait" and isinstance(r, list):
             f.add("delivered")
@@ -345,6 +416,87 @@ def gen_script(rng, mode="local", size=None):
         for b in range(nb):
             s.append(["drop_barrier", b])
     return {"cfg": {"mode": mode, "nsrc": nsrc}, "script": s, "flavour": mode}
+
+
+def gen_unwind(rng):
+    """Local mode: a source owns guards whose destructors call trigger_noop(clean-up event) and then
+    hits a Panic barrier (or nothing): the guards fire while the task unwinds (or, with catch,
+    inside catch_unwind and the source goes on).  Clean-up values (>= 20) are only ever matched by
+    Noop barriers; they must all be reported, in order."""
+    nsrc = rng.choice([2, 3, 4])
+    ty = rng.choice([0, 1])
+    s = []
+    # panic barrier on small values, observers on the clean-up values
+    # (never matching a clean-up value: a second panic during an unwind aborts the process)
+    pk = rng.randrange(0, 4)
+    s.append(["build", ty, "panic", ["eq", pk]])
+    obs_first = rng.random() < 0.5
+    s.append(["build", ty, "noop", ["gt", 19]])
+    if rng.random() < 0.5:
+        s.append(["build", rng.choice([0, 1]), "noop", rng.choice([["any"], ["gt", 24]])])
+    if obs_first and rng.random() < 0.5:
+        s.append(["build", ty, "noop", ["gt", 22]])
+    nb = len(s)
+    g = 20
+    for _ in range(rng.randrange(2, 7)):
+        src = rng.randrange(nsrc)
+        guards = []
+        for _ in range(rng.choice([1, 2, 3])):
+            guards.append([rng.choice([ty, ty, 1 - ty]), g])
+            g = g + 1 if g < 29 else 20
+        catch = rng.random() < 0.35
+        sync = catch or rng.random() < 0.5
+        s.append(["guarded", src, ty, pk if rng.random() < 0.6 else rng.randrange(8), sync, guards, catch])
+        if rng.random() < 0.3:
+            s.append(["trigger_noop", rng.randrange(nsrc), ty, rng.choice([21, 25, 2])])
+        if rng.random() < 0.3:
+            s.append(["wait", rng.randrange(1, nb)])
+    for b in range(nb):
+        for _ in range(rng.choice([3, 6, 12])):
+            s.append(["wait", b])
+    return {"cfg": {"mode": "local", "nsrc": nsrc}, "script": s, "flavour": "unwind"}
+
+
+def gen_tick_empty(rng):
+    """Sim mode, fs corruption hook, registry EMPTY when the tick starts: the host creates the first
+    barrier inside the tick, does corrupted reads in that same tick, then more reads in later ticks."""
+    nsrc = rng.choice([1, 2])
+    s = []
+    src = rng.randrange(nsrc)
+    acts = []
+    if rng.random() < 0.3:
+        acts.append(["read", rng.randrange(8)])          # nobody listens yet: reported nowhere
+    acts.append(["build", 2, "noop", rng.choice([["any"], ["any"], ["gt", 2]])])
+    nb = 1
+    for _ in range(rng.choice([1, 2, 3])):
+        acts.append(["read", rng.randrange(8)])
+        if rng.random() < 0.3:
+            acts.append(["mark"])
+    if rng.random() < 0.3:
+        acts.append(["build", 2, "noop", ["any"]])
+        nb += 1
+        acts.append(["read", rng.randrange(8)])
+    s.append(["tick", src, acts])
+    for _ in range(rng.randrange(1, 4)):
+        x = rng.random()
+        if x < 0.5:
+            s.append(["corrupt_read", rng.randrange(nsrc), rng.randrange(8)])
+        elif x < 0.8:
+            s.append(["tick", rng.randrange(nsrc), [["read", rng.randrange(8)], ["mark"], ["read", rng.randrange(8)]]])
+        else:
+            s.append(["wait", 0])
+    if rng.random() < 0.3:
+        # everything dropped: the registry is empty again at the start of the next tick
+        for b in range(nb):
+            s.append(["wait", b])
+            s.append(["drop_barrier", b])
+        s.append(["tick", src, [["build", 2, "noop", ["any"]], ["read", 9], ["read", 1]]])
+        nb += 1
+        s.append(["corrupt_read", src, 2])
+    for b in range(nb):
+        for _ in range(8):
+            s.append(["wait", b])
+    return {"cfg": {"mode": "sim", "nsrc": nsrc}, "script": s, "flavour": "tick-empty"}
 
 
 def gen_hook_tick(rng):
@@ -499,8 +651,8 @@ def histogram(cases):
         h["sources"][k] = h["sources"].get(k, 0) + 1
         for cmd in c["script"]:
             h["cmds"][cmd[0]] = h["cmds"].get(cmd[0], 0) + 1
-            if cmd[0] == "corrupt_then":
-                for a in cmd[3]:
+            if cmd[0] in ("corrupt_then", "tick"):
+                for a in cmd[3] if cmd[0] == "corrupt_then" else cmd[2]:
                     h["cmds"]["in-tick " + a[0]] = h["cmds"].get("in-tick " + a[0], 0) + 1
             if cmd[0] == "build":
                 h["reactions"][cmd[2]] = h["reactions"].get(cmd[2], 0) + 1
